@@ -10,7 +10,7 @@ import lifecycle_common as lc
 
 LEVEL = "model_checking"
 
-DEFECTS = ["FilterChain_defect%d.cfg" % i for i in range(1, 8)]
+DEFECTS = ["FilterChain_defect%d.cfg" % i for i in range(1, 10)]
 ANSWERS = ("hs", "hc", "d", "ts", "ac", "t")
 OTHER_PROPERTY = ("ended-while-waiting-for-the-upstream", "never-ended-while-waiting-for-the-upstream")
 REAL = {"ipaccess": ("B", 403), "payloadlimit": ("R", 413), "faultinject": ("R", 555)}
@@ -46,6 +46,8 @@ def signature(kind, case):
             break
     re_ = "+".join(sorted({st["v"] for st in case.get("script", []) if st["v"] in ("rm", "rc")})) or "none"
     sig = "C14:%s:answer=%s:reentry=%s:env=%s" % (kind, ans, re_, case.get("env"))
+    if case.get("oneway"):
+        sig += ":oneway"
     inv = invalid_reentry(case, need_predecessor=False)
     if inv:
         sig += ":invalid=" + inv
@@ -122,7 +124,13 @@ def run(ctx):
     r = vlib.run_tlc(ctx, "lifecycle", "FilterChain", "FilterChain_cases.cfg" if q else "FilterChain_cases_thorough.cfg",
                      workers=1, cases_to=raw, timeout=900)
     ctx.add_tlc(r)
-    cases = vlib.read_jsonl(raw)
+    cases, seen = [], set()
+    for c in vlib.read_jsonl(raw):
+        # the same inputs may appear with two outcomes the specification allows (TerminateStream takes over / declines)
+        k = json.dumps([c["chain"], c["env"], c.get("oneway"), c["script"]])
+        if k not in seen:
+            seen.add(k)
+            cases.append(c)
     if len(cases) < 1000:
         raise vlib.Inconclusive("case generation produced only %d cases" % len(cases))
     rng = random.Random(ctx.seed)
@@ -136,15 +144,22 @@ def run(ctx):
         # every case in which a re-match / re-choose is returned in a phase that does not honour it while another
         # filter of that phase is configured before the requester
         inval = [c for c in long_ if invalid_reentry(c)]
+        inval_ow = [c for c in inval if c.get("oneway")]
+        inval = [c for c in inval if not c.get("oneway")] + rng.sample(inval_ow, min(len(inval_ow), 400))
         long_ = [c for c in long_ if not invalid_reentry(c)]
+        # the timeout environment costs 400 ms per run
+        slow = [c for c in long_ if c["env"] == "rtermT"]
+        long_ = [c for c in long_ if c["env"] != "rtermT"]
         core = [c for c in long_ if dense(c) and c["env"] == "ok"]
         core = rng.sample(core, min(len(core), 2500))
         rest = [c for c in long_ if not (dense(c) and c["env"] == "ok")]
-        picked = short + inval + core + rng.sample(rest, min(len(rest), 2500))
+        picked = short + inval + core + rng.sample(rest, min(len(rest), 3000)) + rng.sample(slow, min(len(slow), 100))
     else:
         # every chain of length <= 3 (exhaustive) and a VERIF_SEED sample of the chains of length 4
         four = [c for c in cases if len(c["chain"]) > 3]
-        picked = [c for c in cases if len(c["chain"]) <= 3] + rng.sample(four, min(len(four), 25000))
+        slow = [c for c in cases if c["env"] == "rtermT"]      # 400 ms per run
+        picked = [c for c in cases if len(c["chain"]) <= 3 and c["env"] != "rtermT"] + \
+                 rng.sample([c for c in four if c["env"] != "rtermT"], min(len(four), 25000)) + rng.sample(slow, min(len(slow), 3000))
     picked += real_cases()
     rng.shuffle(picked)
     shards = 12 if q else 14
